@@ -162,6 +162,45 @@ def run(ctx):
 
     # ------------------------------------------------------------------ R04.3
     r = ctx.rule("R04.3", "names compare ASCII case-insensitively on both sides: attribute names given to the matcher are lower-case constants or lower-cased literals and the document side is lower-cased in find; element names compare through LocalName equality", "E-MIR + E-AST", floor=5)
+    # the element-name hash must invalidate itself when the 64-bit word is full: guard shift + per-character shift == 64
+    lu = mir.fn("LocalNameHash::update")
+    shr = []; shl = []
+    def _const_val(txt):
+        nums = [int(x) for x in re.findall(r"const (\d+)_", txt)]
+        if len(nums) == 1:
+            return nums[0]
+        if len(nums) == 2 and "Sub" in txt:
+            return nums[0] - nums[1]
+        if len(nums) == 2 and "Mul" in txt:
+            return nums[0] * nums[1]
+        return None
+    for b_ in lu.blocks:
+        for st in b_["stmts"]:
+            if st["k"] == "assign" and st["rv"]["k"] == "bin" and st["rv"]["op"].startswith("Shr"):
+                shr.append(_const_val(lu.deep(st["rv"]["b"])))
+            if st["k"] == "assign" and st["rv"]["k"] == "bin" and st["rv"]["op"].startswith("Shl"):
+                shl.append(_const_val(lu.deep(st["rv"]["b"])))
+    r.inst("LocalNameHash::update|overflow-guard", sample={"guard_shift": shr, "char_shift": sorted(set(shl))})
+    if len(shr) != 1 or len(set(shl)) != 1 or None in shr or None in shl or shr[0] + shl[0] != 64:
+        r.violate("LocalNameHash::update|overflow-guard", f"LocalNameHash::update tests the top bits with `h >> {shr}` but shifts characters in by {sorted(set(shl))} bits: the sum must be 64, otherwise a character is shifted into a full word and different long element names (13 characters) get equal hashes - type selectors, :not(name) and end-tag matching then confuse them", lu.loc())
+    # case-insensitive substring search must look for both cases of the needle's first byte
+    cl0 = [g for g in mir.fns if g.key == "AttributeMatcher::has_attr_with_substring::{closure#0}"]
+    r.inst("has_attr_with_substring|needle-cases")
+    ok_ = False
+    if cl0:
+        g = cl0[0]
+        lows = [bi for bi, t in g.calls(r"u8::to_ascii_lowercase$")]
+        ups = [bi for bi, t in g.calls(r"u8::to_ascii_uppercase$")]
+        for b_ in g.blocks:
+            for st in b_["stmts"]:
+                if st["k"] == "assign" and st["rv"]["k"] == "agg" and st["rv"].get("what") == "closure":
+                    inner = [h for h in mir.fns if h.path == st["rv"]["name"]]
+                    if inner and list(inner[0].calls(r"memchr2$")):
+                        caps = [g.deep(o) for o in st["rv"]["ops"]]
+                        if any("to_ascii_lowercase(" in c for c in caps) and any("to_ascii_uppercase(" in c for c in caps) and lows and ups:
+                            ok_ = True
+    if not ok_:
+        r.violate("has_attr_with_substring|needle-cases", "the case-insensitive `*=` search no longer scans for both the lower-case and the upper-case form of the needle's first byte (memchr2(lo, up, ..)): `[foo*=\"Bar\" i]` would miss `foo=\"xbar\"`", cl0[0].loc() if cl0 else None)
     sm.clause_eq_case_insensitive(r, mir)
     am = {f.name: f for f in idx.fns if f.owner == "AttributeMatcher"}
     find = am.get("find")
